@@ -25,6 +25,7 @@ import Knut.Driver.C02
 import Knut.Driver.GoSemFmt
 import Knut.Driver.GoSemBean
 import Knut.Driver.GoSemFloat
+import Knut.Driver.GoSemTable
 /-! Line-protocol driver over the executable model: one request per line (`op field*`), one answer line.
 Each property contributes a handler module `Knut/Driver/<X>.lean`; add it to `handlers`. -/
 open Knut Knut.Wire
